@@ -288,6 +288,13 @@ func analysePkg(repo, dir, short string, structs []string, out *lockTable) error
 			return true
 		})
 	}
+	// resource.GetAndUpdate first: the lock mode each of its callbacks runs under
+	if fd := pa.funcByName("GetAndUpdate"); fd != nil {
+		gauModes = map[string]string{}
+		fn := pa.info.Defs[fd.Name].(*types.Func)
+		w := &walker{pa: pa, decl: fd, stack: []*types.Func{fn}}
+		w.walkFunc(fd, newCtx())
+	}
 	// entry points: every function, with an empty context (callers add their contexts by inlining)
 	var fds []*ast.FuncDecl
 	for _, fd := range pa.funcs {
@@ -305,6 +312,15 @@ func analysePkg(repo, dir, short string, structs []string, out *lockTable) error
 	}
 	if short == "group" {
 		pa.groupLocals()
+	}
+	return nil
+}
+
+func (pa *pkgAn) funcByName(name string) *ast.FuncDecl {
+	for _, fd := range pa.funcs {
+		if fd.Recv == nil && fd.Name.Name == name {
+			return fd
+		}
 	}
 	return nil
 }
@@ -515,11 +531,49 @@ func (w *walker) lockOp(call *ast.CallExpr) (lock, op string) {
 	default:
 		return "", ""
 	}
+	if id, ok := se.X.(*ast.Ident); ok && w.decl != nil && w.decl.Name.Name == "GetAndUpdate" {
+		// the mutex parameter of GetAndUpdate
+		if v, ok := w.obj(id).(*types.Var); ok && !v.IsField() {
+			return "param:" + id.Name, se.Sel.Name
+		}
+	}
 	fi := w.pa.fieldOf(se.X)
 	if fi == nil || !fi.mutex {
 		return "", ""
 	}
 	return fi.key, se.Sel.Name
+}
+
+// gauModes: for each function parameter of resource.GetAndUpdate the lock mode ("R", "X" or "") the
+// mutex parameter is held in at every call of it, read from GetAndUpdate's own body.
+var gauModes map[string]string
+
+func (w *walker) noteParamCall(call *ast.CallExpr, c *ctx) {
+	if w.decl == nil || w.decl.Name.Name != "GetAndUpdate" || w.decl.Recv != nil {
+		return
+	}
+	id, ok := call.Fun.(*ast.Ident)
+	if !ok {
+		return
+	}
+	v, ok := w.obj(id).(*types.Var)
+	if !ok || v.IsField() {
+		return
+	}
+	mode := ""
+	for l, m := range c.locks {
+		if strings.HasPrefix(l, "param:") {
+			mode = m
+		}
+	}
+	if old, seen := gauModes[id.Name]; seen {
+		if old == "" || mode == "" {
+			mode = ""
+		} else if old == "R" || mode == "R" {
+			mode = "R"
+		}
+	}
+	gauModes[id.Name] = mode
 }
 
 func (w *walker) stmt(s ast.Stmt, c *ctx, top bool) (*ctx, bool) {
@@ -1123,7 +1177,18 @@ func (w *walker) call(call *ast.CallExpr, c *ctx, _ bool) {
 			}
 		}
 		if mu != "" {
-			modes := []string{"R", "", "X"}
+			modes := []string{"", "", ""}
+			if fd := w.pa.funcByName("GetAndUpdate"); fd != nil {
+				i := 0
+				for _, p := range fd.Type.Params.List {
+					for _, nm := range p.Names {
+						if i >= 1 && i <= 3 {
+							modes[i-1] = gauModes[nm.Name]
+						}
+						i++
+					}
+				}
+			}
 			for i, a := range call.Args[1:] {
 				cc := c.clone()
 				if modes[i] != "" {
@@ -1140,6 +1205,7 @@ func (w *walker) call(call *ast.CallExpr, c *ctx, _ bool) {
 			return
 		}
 	}
+	w.noteParamCall(call, c)
 	// receiver and arguments
 	if se, ok := call.Fun.(*ast.SelectorExpr); ok {
 		if sel := w.pa.info.Selections[se]; sel != nil && sel.Kind() == types.FieldVal {
